@@ -301,9 +301,11 @@ class StmtMixin:
                 v = self.default_op(v, rhs[0])
                 self.emit(self.rv(v))
                 return
-            if x.eff:
-                x = self.hoist_target(x)
             v = self.value(rhs[0], x.type)
+            if x.eff or v.eff:
+                # Go evaluates the operands of the target before the right-hand
+                # side; Python would evaluate the target last
+                x = self.hoist_target(x, force=True)
             conv = self.assign_conv(v, x.type, rhs[0])
             # aggregates: in-place element-wise copy, no private copy needed
             self.emit_store(x, self.rv(conv))
